@@ -75,6 +75,9 @@ func (e *env) judge() {
 			e.x.Failf("timestamps-from-different-exchanges", "client combined t0=%v t1=%v t2=%v t3=%v: no single exchange has these four timestamps (%s)", rel(tu.T0), rel(tu.T1), rel(tu.T2), rel(tu.T3), e.truth())
 		}
 		ex.Accepted = true
+		if ex.Unsync {
+			e.x.Failf("unsynchronised-reply-accepted", "exchange %d: the server answered with leap indicator 3 / stratum 0 and the client still computed an offset from it", ex.N)
+		}
 		if e.lastDelivered != nil {
 			// the response just consumed belongs to this exchange; the client's
 			// next interleaved request must name it
@@ -176,6 +179,9 @@ func (e *env) serve(d *vnet.Datagram) []*kit.Reply {
 		if e.real != nil {
 			r = e.realServe(d, fwd)
 		} else {
+			// the reference server may be unsynchronised for one exchange: it answers
+			// (and records the exchange) as always, the client discards the reply
+			e.s.Unsync = x.Choose(2, "srv-unsync") == 1
 			r = e.s.Serve(d, fwd)
 		}
 		if r != nil {
@@ -446,6 +452,6 @@ func TestCheck(t *testing.T) {
 				r.Explore(mc.Config{Name: name, Bound: mc.Pick(r, 3, 4)}, program(r, il, real, true, mc.Pick(r, 3, 4)))
 			}
 		}
-		r.Extra["rule"] = "histories of 3 (4) MeasureClockOffsetIP / MeasureClockOffsetSCION calls (each up to 3 exchanges) with the real IPClient and the real SCIONClient (one path), interleaved mode on/off, against a reference server and against the repository's runIPServer / runSCIONServer; per exchange: request {deliver, drop, duplicate}, server clock offset in {0,+1.37s,-250ms}, forward/backward delay in {3ms,0,1ns,40ms}, reply {deliver, drop, duplicate, hold and deliver stale later}, client port fresh/reused, kernel rx/tx timestamps present/absent, gap to next call in {1s,0,3s-1ns,3s,3s+1ns,10s}; all histories within 3 (4) deviations"
+		r.Extra["rule"] = "histories of 3 (4) MeasureClockOffsetIP / MeasureClockOffsetSCION calls (each up to 3 exchanges) with the real IPClient and the real SCIONClient (one path), interleaved mode on/off, against a reference server and against the repository's runIPServer / runSCIONServer; per exchange: request {deliver, drop, duplicate}, server clock offset in {0,+1.37s,-250ms}, forward/backward delay in {3ms,0,1ns,40ms}, reply {deliver, drop, duplicate, hold and deliver stale later}, reference server synchronised / unsynchronised for that exchange (LI=3, stratum 0: the client must discard the reply and keep naming the last accepted exchange), client port fresh/reused, kernel rx/tx timestamps present/absent, gap to next call in {1s,0,3s-1ns,3s,3s+1ns,10s}; all histories within 3 (4) deviations"
 	})
 }
